@@ -246,7 +246,9 @@ func (r *Run) finish() int {
 	if r.assumptions == nil {
 		ev["assumptions"] = []string{}
 	}
-	if !r.replayMode {
+	// evidence is written for the twenty properties only, not for development entry points (C12ONE, GEN, …)
+	isProperty := len(r.ID) == 3 && r.ID[0] == 'C' && r.ID[1] >= '0' && r.ID[1] <= '9' && r.ID[2] >= '0' && r.ID[2] <= '9'
+	if !r.replayMode && isProperty {
 		body, _ := json.MarshalIndent(ev, "", " ")
 		os.MkdirAll(filepath.Join(verifRoot(), "evidence"), 0o755)
 		os.WriteFile(filepath.Join(verifRoot(), "evidence", r.ID+".json"), append(body, '\n'), 0o644)
